@@ -105,8 +105,7 @@ func (i *rangeAggIterator) clearWindow(windowStart time.Time) {
 		// Filter series data in place: timestamp should be >= windowStart.
 		n := 0
 		for _, p := range s.Data {
-			t := p.Timestamp.AsTime()
-			if t.Before(windowStart) || t.Equal(windowStart) {
+			if p.Timestamp.AsTime().Before(windowStart) {
 				continue
 			}
 			s.Data[n] = p
